@@ -16,7 +16,7 @@ bad=0
 for p in $props; do
   VERIF_OUT_DIR="/tmp/benignout-$$" VERIF_REPO="$wt" VERIF_SEED="${VERIF_SEED:-1}" ./check.sh "$p" "$tier" > "/tmp/benign-$p-$$.log" 2>&1
   rc=$?
-  echo "$(basename $src) $p $tier exit=$rc $(grep -E '^(VIOLATION|  [a-z]|INFRA)' /tmp/benign-$p-$$.log | head -3 | cut -c1-220 | tr '\n' '|')"
+  echo "$(basename $src) $p $tier exit=$rc $(grep -E '^(VIOLATION|  [a-z]+[.a-z]*:|INFRA)' /tmp/benign-$p-$$.log | head -4 | cut -c1-220 | tr '\n' '|')"
   [ $rc -ne 0 ] && bad=1
   rm -f "/tmp/benign-$p-$$.log"
 done
